@@ -142,7 +142,15 @@ type vfNodeCfg struct {
 const vfNever = 1000 * time.Hour
 
 func newVfNode(t *testing.T, cfg vfNodeCfg) (*vfNode, error) {
+	return newVfNodeWith(t, cfg, nil)
+}
+
+// newVfNodeWith lets the caller prepare the stub host (e.g. its peerstore) before the constructor runs.
+func newVfNodeWith(t *testing.T, cfg vfNodeCfg, prep func(*vfHost)) (*vfNode, error) {
 	n := &vfNode{t: t, h: newVfHost(vfPeer(0)), fakes: map[int]*vfFake{}, byID: map[peer.ID]int{}, base: time.Now()}
+	if prep != nil {
+		prep(n.h)
+	}
 	n.raw = &vfRaw{base: n.base}
 	n.ctx, n.cancel = context.WithCancel(context.Background())
 	opts := []Option{WithRawTracer(n.raw)}
